@@ -823,9 +823,12 @@ impl<T: PPGEvaluatorStrategy> PPGEvaluator<T> {
             let job_id_b = &self.jobs[b as usize].job_id;
             let key = format!("{}!!!{}", job_id_a, job_id_b);
             let history = self.jobs[a as usize].history_output.as_ref();
-            let second_job_success = self.jobs[b as usize].history_output.is_some()
+            // a job that was skipped first and turned into an upstream failure later
+            // still carries its old output, but it never ran: its links stay as they were.
+            let second_job_success = (self.jobs[b as usize].history_output.is_some()
                 || self.jobs[b as usize].state
-                    == JobState::Ephemeral(JobStateEphemeral::FinishedSkipped);
+                    == JobState::Ephemeral(JobStateEphemeral::FinishedSkipped))
+                && !self.jobs[b as usize].state.is_upstream_failure();
             if second_job_success {
                 // we do not store the history link if the second job failed.
                 let history = match history {
